@@ -246,14 +246,16 @@ pub proof fn lemma_keep_ext<T>(s: Seq<T>, f: spec_fn(T) -> bool, g: spec_fn(T) -
     }
 }
 
-pub proof fn lemma_keep_keep<T>(s: Seq<T>, f: spec_fn(T) -> bool, g: spec_fn(T) -> bool)
-    ensures seq_keep(seq_keep(s, f), g) == seq_keep(s, |x: T| f(x) && g(x)),
+pub proof fn lemma_keep_keep<T>(s: Seq<T>, f: spec_fn(T) -> bool, g: spec_fn(T) -> bool, h: spec_fn(T) -> bool)
+    requires forall|i: int| 0 <= i < s.len() ==> h(#[trigger] s[i]) == (f(s[i]) && g(s[i])),
+    ensures seq_keep(seq_keep(s, f), g) == seq_keep(s, h),
     decreases s.len()
 {
-    let fg = |x: T| f(x) && g(x);
     if s.len() > 0 {
         let d = s.drop_last();
-        lemma_keep_keep(d, f, g);
+        assert forall|i: int| 0 <= i < d.len() implies h(#[trigger] d[i]) == (f(d[i]) && g(d[i])) by { assert(d[i] == s[i]); }
+        lemma_keep_keep(d, f, g, h);
+        assert(s.last() == s[s.len() - 1]);
         if f(s.last()) {
             let kd = seq_keep(d, f);
             assert(kd.push(s.last()).drop_last() == kd);
@@ -262,6 +264,23 @@ pub proof fn lemma_keep_keep<T>(s: Seq<T>, f: spec_fn(T) -> bool, g: spec_fn(T) 
     } else {
         assert(seq_keep(s, f).len() == 0);
     }
+}
+
+pub proof fn lemma_take_contains(lo: Seq<u64>, idx: int, v: u64)
+    requires 0 <= idx < lo.len(),
+    ensures lo.take(idx + 1).contains(v) <==> (lo.take(idx).contains(v) || v == lo[idx]),
+{
+    let a = lo.take(idx);
+    let b = lo.take(idx + 1);
+    if b.contains(v) {
+        let w = choose|w: int| 0 <= w < b.len() && b[w] == v;
+        if w < idx { assert(a[w] == v); }
+    }
+    if a.contains(v) {
+        let w = choose|w: int| 0 <= w < a.len() && a[w] == v;
+        assert(b[w] == v);
+    }
+    if v == lo[idx] { assert(b[idx] == v); }
 }
 
 pub open spec fn segs_below(s: Seq<Segment>, b: int) -> bool { forall|i: int| 0 <= i < s.len() ==> (#[trigger] s[i]).start_offset < b }
@@ -535,3 +554,16 @@ pub proof fn lemma_block_ok_sound(p0: Partition, p1: Partition, lo: Seq<u64>)
         assert(p1.segments@[j] == p0.segments@[i]);
     }
 }
+
+pub open spec fn topic_frame(a: Topic, b: Topic) -> bool {
+    &&& a.stream_id == b.stream_id && a.topic_id == b.topic_id && a.message_expiry == b.message_expiry && a.config == b.config
+    &&& forall|k: u32| #![trigger a.partitions@.contains_key(k)] #![trigger b.partitions@.contains_key(k)] a.partitions@.contains_key(k) <==> b.partitions@.contains_key(k)
+}
+// none of the first n entries is for partition k
+pub open spec fn not_mentioned(l: Seq<SegmentsToHandle>, n: int, k: u32) -> bool {
+    forall|m: int| 0 <= m < n ==> (#[trigger] l[m]).partition_id != k
+}
+pub proof fn lemma_not_mentioned_self(l: Seq<SegmentsToHandle>, n: int)
+    requires 0 <= n < l.len(), forall|k1: int, k2: int| 0 <= k1 < k2 < l.len() ==> (#[trigger] l[k1]).partition_id != (#[trigger] l[k2]).partition_id,
+    ensures not_mentioned(l, n, l[n].partition_id),
+{}
